@@ -132,6 +132,16 @@ func callLib(c *rux.Context, name string) {
 		handlers.Timeout(-time.Second)(c) // the deadline has passed before the handlers below start
 	case "timeout-idle":
 		handlers.Timeout(time.Hour)(c)
+	case "text200":
+		c.Text(200, "abc")
+	case "html200-empty":
+		c.HTML(200, nil)
+	case "json201":
+		c.JSON(201, rux.M{"a": 1})
+	case "jsonbytes200":
+		c.JSONBytes(200, []byte("{}"))
+	case "nocontent":
+		c.NoContent()
 	default:
 		fatal("unknown lib middleware %q", name)
 	}
@@ -247,14 +257,14 @@ func normLog(l [][]any) [][]any {
 
 // splits enumerates how a chain of n-1 middleware is divided: g global (g1 before the route is registered, the rest
 // after), grp group middleware (outer/inner), the rest route middleware (variadic / later Route.Use).
-type chainSplit struct{ gBefore, gAfter, outer, outUse, inner, inUse, variadic, later int }
+type chainSplit struct{ gBefore, gAfter, outer, outUse, inner, inUse, variadic, later, fbTail int }
 
 func allSplits(mw int) []chainSplit {
 	out := []chainSplit{}
 	var rec func(parts []int, left int)
 	rec = func(parts []int, left int) {
 		if len(parts) == 7 {
-			out = append(out, chainSplit{parts[0], parts[1], parts[2], parts[3], parts[4], parts[5], parts[6], left})
+			out = append(out, chainSplit{parts[0], parts[1], parts[2], parts[3], parts[4], parts[5], parts[6], left, 0})
 			return
 		}
 		for k := 0; k <= left; k++ {
@@ -270,7 +280,7 @@ func randSplit(rng *rand.Rand, mw int) chainSplit {
 	for i := 0; i < mw; i++ {
 		cuts[rng.Intn(8)]++
 	}
-	return chainSplit{cuts[0], cuts[1], cuts[2], cuts[3], cuts[4], cuts[5], cuts[6], cuts[7]}
+	return chainSplit{cuts[0], cuts[1], cuts[2], cuts[3], cuts[4], cuts[5], cuts[6], cuts[7], 0}
 }
 
 var chainRng = rand.New(rand.NewSource(seed()))
@@ -376,6 +386,10 @@ func chainReplay(s *Summary, raw json.RawMessage) {
 	switch {
 	case c.Kind != "route":
 		splits = []chainSplit{{}}
+		if (c.Kind == "notfound" || c.Kind == "notallowed") && n >= 3 && chainRunHook == nil {
+			// the same chain divided differently between global middleware and fallback handlers: a single fallback handler
+			splits = append(splits, chainSplit{fbTail: 1}, chainSplit{fbTail: 2})
+		}
 		if c.Kind == "redispatch" {
 			c.Escaped = nil // the follow-up repetition is not part of this scenario
 		}
@@ -427,12 +441,15 @@ func chainRunOnce(s *Summary, c *chainCase, sp chainSplit, outerPrefix string, c
 	polluted := c.Kind == "route" && n%2 == 0 && chainRunHook == nil
 	// (the extra middleware takes one slot of the handler limit: only for chains well below it)
 	subReq := c.Kind == "route" && c.Escaped != nil && c.Hook != nil && n < 50 && chainRunHook == nil
+	// fallback chains: a nested request that ends in the OTHER fallback (404 inside a 405 request and the reverse) is served
+	// while the measured request is in flight
+	fbSub := (c.Kind == "notfound" || c.Kind == "notallowed") && n < 50 && chainRunHook == nil
 	method, path := "GET", "/g/h/x"
 	regPanic := any(nil)
 	func() {
 		defer func() { regPanic = recover() }()
 		opts := []func(*rux.Router){}
-		if c.Kind == "notallowed" || c.Kind == "na-default" || c.Kind == "default" {
+		if c.Kind == "notallowed" || c.Kind == "na-default" || c.Kind == "default" || fbSub {
 			opts = append(opts, rux.HandleMethodNotAllowed)
 		}
 		if cachedDyn {
@@ -450,6 +467,31 @@ func chainRunOnce(s *Summary, c *chainCase, sp chainSplit, outerPrefix string, c
 					cur = saved
 				}
 			})
+		}
+		use := func(hs ...rux.HandlerFunc) { r.Use(hs...) }
+		if fbSub {
+			r.Use(func(cx *rux.Context) {
+				if cx.Req.Header.Get("X-Subrequest") != "" {
+					saved := cur
+					cur = &chainRun{rw: &recWriter{hdr: http.Header{}}}
+					nm, np := "POST", "/other" // a GET-only route: 405
+					if c.Kind == "notallowed" {
+						nm, np = "GET", "/missing"
+					}
+					func() {
+						// (the global middleware runs for the nested request too; what it does there - a panic included - stays there)
+						defer func() { _ = recover(); cur = saved }()
+						r.ServeHTTP(httptest.NewRecorder(), &http.Request{Method: nm, URL: &url.URL{Path: np}, Header: http.Header{}, Proto: "HTTP/1.1"})
+					}()
+				}
+			})
+			if n%3 != 0 { // one Use call per handler: the shared slice of global middleware gets spare capacity
+				use = func(hs ...rux.HandlerFunc) {
+					for _, h := range hs {
+						r.Use(h)
+					}
+				}
+			}
 		}
 		switch c.Kind {
 		case "route":
@@ -516,12 +558,15 @@ func chainRunOnce(s *Summary, c *chainCase, sp chainSplit, outerPrefix string, c
 			}
 		case "notfound": // global middleware registered before AND after the fallback handlers
 			k := (n - 1) / 2
-			r.Use(hs[:k/2]...)
+			if sp.fbTail > 0 {
+				k = n - sp.fbTail
+			}
+			use(hs[:k/2]...)
 			if n%2 == 0 {
 				r.NotFound(decoyMw, decoyMw) // installed first and then REPLACED: must never run
 			}
 			r.NotFound(hs[k:]...)
-			r.Use(hs[k/2 : k]...)
+			use(hs[k/2 : k]...)
 			r.GET("/other", nopHandler)
 			path = "/missing"
 		case "redispatch":
@@ -570,13 +615,16 @@ func chainRunOnce(s *Summary, c *chainCase, sp chainSplit, outerPrefix string, c
 			r.POST("/g/h/x", nopHandler)
 		case "notallowed":
 			k := (n - 1) / 2
-			r.Use(hs[:k/2]...)
+			if sp.fbTail > 0 {
+				k = n - sp.fbTail
+			}
+			use(hs[:k/2]...)
 			if n%2 == 1 {
 				r.NotAllowed(decoyMw) // installed first and then REPLACED: must never run
 			}
 			r.NotAllowed(hs[k:]...)
 			r.NotFound(func(cx *rux.Context) { cur.log = append(cur.log, []any{"in", -2, false}) }) // must not answer a 405
-			r.Use(hs[k/2 : k]...)
+			use(hs[k/2 : k]...)
 			r.POST("/g/h/x", nopHandler)
 		}
 		if polluted {
@@ -756,6 +804,16 @@ func chainRunOnce(s *Summary, c *chainCase, sp chainSplit, outerPrefix string, c
 		gotU := run.rw.calls
 		if !(len(gotU) == 0 && len(wantU) == 0) && !reflect.DeepEqual(gotU, wantU) {
 			s.mismatch(desc("writer", fmt.Sprintf("underlying writer received %v, spec %v", gotU, wantU)), c)
+			return
+		}
+	}
+	if fbSub {
+		withSub = true
+		third := serve()
+		withSub = false
+		if !reflect.DeepEqual(third.log, run.log) || (third.panicV != nil) != (run.panicV != nil) || (c.CheckW && !reflect.DeepEqual(third.rw.calls, run.rw.calls)) {
+			s.mismatch(desc("enter", fmt.Sprintf("the same request with a nested request that ends in the other fallback chain served while it is in flight: log %v writer %v, alone %v %v",
+				third.log, third.rw.calls, run.log, run.rw.calls)), c)
 			return
 		}
 	}
